@@ -192,6 +192,7 @@ func init() {
 		c.ruleImportResolution()
 		c.ruleMatcherShape()
 		c.ruleTypeIdent()
+		c.ruleAliasAll("implements")
 		c.ruleQueries()
 		c.ruleLangEq("@implements")
 		c.ruleAttach("@implements")
